@@ -120,6 +120,13 @@ func (ev *tmplEval) eval(e ast.Expr) string {
 			}
 			return atom("?var " + v.Name())
 		}
+	case *ast.IndexExpr:
+		// an element of a local list (vars[i]): as opaque as the loop variable of a range over it
+		if id, ok := x.X.(*ast.Ident); ok {
+			if v, ok := info.Uses[id].(*types.Var); ok && v.Parent() != v.Pkg().Scope() {
+				return atom("?var " + v.Name() + "[]")
+			}
+		}
 	case *ast.SelectorExpr:
 		if obj, ok := info.Uses[x.Sel].(*types.Var); ok {
 			if obj.Pkg() != nil && obj.Pkg().Name() == "globals" && obj.Name() == "TopicDelimiter" {
@@ -208,6 +215,15 @@ func sprintfSym(f string, args []string) string {
 	var b strings.Builder
 	ai := 0
 	for i := 0; i < len(f); i++ {
+		// an atom stands for text produced at generation time (e.g. the prefix
+		// template, whose own %s are filled by this very call): it stays whole
+		if strings.HasPrefix(f[i:], atomOpen) {
+			if j := strings.Index(f[i:], atomClose); j >= 0 {
+				b.WriteString(f[i : i+j+len(atomClose)])
+				i += j + len(atomClose) - 1
+				continue
+			}
+		}
 		if f[i] != '%' || i+1 >= len(f) {
 			b.WriteByte(f[i])
 			continue
@@ -453,6 +469,29 @@ func C08(ctx *core.Ctx) {
 				defs[m[1]] = append(defs[m[1]], def{e.fn, m[2], e.pos})
 			}
 		}
+		// the prefix helper by role: the one function of the package whose call
+		// every emitted `prefix = …` definition consists of
+		helperName := "generatePrefixStringTemplate"
+		{
+			names := map[string]bool{}
+			for _, d := range defs["prefix"] {
+				v := strings.Trim(strings.TrimSpace(d.rhs), `'`)
+				if strings.HasPrefix(v, atomOpen+"call ") && strings.HasSuffix(v, atomClose) && strings.Count(v, atomOpen) == 1 {
+					names[strings.TrimSuffix(strings.TrimPrefix(v, atomOpen+"call "), atomClose)] = true
+				}
+			}
+			if len(names) == 1 {
+				for n := range names {
+					for _, f := range pkg.Syntax {
+						for _, d := range f.Decls {
+							if fd, ok := d.(*ast.FuncDecl); ok && fd.Name.Name == n && fd.Recv == nil {
+								helperName = n
+							}
+						}
+					}
+				}
+			}
+		}
 		nsite := map[string]int{}
 		for _, e := range ems {
 			if !regexp.MustCompile(`(^|[\s])topic :?= `).MatchString(e.text) {
@@ -574,7 +613,7 @@ func C08(ctx *core.Ctx) {
 						ctx.Check(v == atom("Op"), "C08.R2", site+" › op is the operation name", cc.V.Pos(found.pos), "op = «Op»", "op is emitted as "+rhs+", not the operation's name")
 					case "prefix":
 						v := strings.Trim(rhs, `'`)
-						ctx.Check(v == atom("call generatePrefixStringTemplate"), "C08.R2", site+" › prefix comes from the prefix helper", cc.V.Pos(found.pos), "prefix = generatePrefixStringTemplate(scope)", "prefix is emitted as "+rhs+", not through the language's prefix helper")
+						ctx.Check(v == atom("call "+helperName), "C08.R2", site+" › prefix comes from the prefix helper", cc.V.Pos(found.pos), "prefix = "+helperName+"(scope)", "prefix is emitted as "+rhs+", not through the language's prefix helper")
 					}
 				}
 			}
@@ -583,13 +622,13 @@ func C08(ctx *core.Ctx) {
 		var helper *ast.FuncDecl
 		for _, f := range pkg.Syntax {
 			for _, d := range f.Decls {
-				if fd, ok := d.(*ast.FuncDecl); ok && fd.Name.Name == "generatePrefixStringTemplate" {
+				if fd, ok := d.(*ast.FuncDecl); ok && fd.Name.Name == helperName {
 					helper = fd
 				}
 			}
 		}
 		if helper == nil {
-			ctx.Unresolved("C08.R3", l.pkg+".generatePrefixStringTemplate", "prefix helper not found")
+			ctx.Unresolved("C08.R3", l.pkg+"."+helperName, "prefix helper not found")
 			continue
 		}
 		hpos := cc.V.Pos(helper.Pos())
@@ -638,7 +677,7 @@ func C08(ctx *core.Ctx) {
 		if nPrefix == 0 {
 			bad = "helper emits no prefix text"
 		}
-		ctx.Check(bad == "", "C08.R3", l.pkg+".generatePrefixStringTemplate › prefix text is followed by «Delim» in every template", hpos, sprintf("%d template chunk(s)", len(texts)), "prefix helper: "+bad+" — the separator between prefix and scope does not follow the -delim option, so this language disagrees with the others")
+		ctx.Check(bad == "", "C08.R3", l.pkg+"."+helperName+" › prefix text is followed by «Delim» in every template", hpos, sprintf("%d template chunk(s)", len(texts)), "prefix helper: "+bad+" — the separator between prefix and scope does not follow the -delim option, so this language disagrees with the others")
 		// empty prefix ⇒ empty string literal
 		emptyOK := false
 		for _, t := range texts {
@@ -646,17 +685,78 @@ func C08(ctx *core.Ctx) {
 				emptyOK = true
 			}
 		}
-		ctx.Check(emptyOK, "C08.R3", l.pkg+".generatePrefixStringTemplate › empty prefix gives the empty string", hpos, "returns the empty string literal", "a scope without prefix does not get an empty prefix")
+		ctx.Check(emptyOK, "C08.R3", l.pkg+"."+helperName+" › empty prefix gives the empty string", hpos, "returns the empty string literal", "a scope without prefix does not get an empty prefix")
 		// R4: variables in declaration order: a range over scope.Prefix.Variables (slice, ascending) feeds the argument list
 		okOrder := false
+		// the helper itself or a function of the package it calls (the list
+		// building may be shared); a range, or an ascending index loop
+		scan := []*ast.FuncDecl{helper}
 		ast.Inspect(helper, func(n ast.Node) bool {
-			if rs, ok := n.(*ast.RangeStmt); ok {
-				if sel, ok := rs.X.(*ast.SelectorExpr); ok && sel.Sel.Name == "Variables" {
-					okOrder = true
+			if ce, ok := n.(*ast.CallExpr); ok {
+				if id, ok := ce.Fun.(*ast.Ident); ok {
+					for _, f := range pkg.Syntax {
+						for _, d := range f.Decls {
+							if fd, ok := d.(*ast.FuncDecl); ok && fd.Recv == nil && fd.Name.Name == id.Name && fd != helper {
+								scan = append(scan, fd)
+							}
+						}
+					}
 				}
 			}
 			return true
 		})
-		ctx.Check(okOrder, "C08.R4", l.pkg+".generatePrefixStringTemplate › variables substituted in declaration order", hpos, "range over scope.Prefix.Variables", "prefix variables are not taken in declaration order")
+		for _, fd := range scan {
+			// locals holding the variable list
+			isVars := func(e ast.Expr) bool {
+				sel, ok := e.(*ast.SelectorExpr)
+				return ok && sel.Sel.Name == "Variables"
+			}
+			alias := map[string]bool{}
+			ast.Inspect(fd, func(n ast.Node) bool {
+				if as, ok := n.(*ast.AssignStmt); ok && len(as.Lhs) == 1 && len(as.Rhs) == 1 && isVars(as.Rhs[0]) {
+					if id, ok := as.Lhs[0].(*ast.Ident); ok {
+						alias[id.Name] = true
+					}
+				}
+				return true
+			})
+			isList := func(e ast.Expr) bool {
+				if id, ok := e.(*ast.Ident); ok && alias[id.Name] {
+					return true
+				}
+				return isVars(e)
+			}
+			ast.Inspect(fd, func(n ast.Node) bool {
+				switch st := n.(type) {
+				case *ast.RangeStmt:
+					if isList(st.X) {
+						okOrder = true
+					}
+				case *ast.ForStmt:
+					inc, isInc := st.Post.(*ast.IncDecStmt)
+					if !isInc || inc.Tok != token.INC {
+						return true
+					}
+					idx, isId := inc.X.(*ast.Ident)
+					init, isAs := st.Init.(*ast.AssignStmt)
+					if !isId || !isAs || len(init.Rhs) != 1 {
+						return true
+					}
+					if lit, isLit := init.Rhs[0].(*ast.BasicLit); !isLit || lit.Value != "0" {
+						return true
+					}
+					ast.Inspect(st.Body, func(m ast.Node) bool {
+						if ix, ok := m.(*ast.IndexExpr); ok && isList(ix.X) {
+							if id, ok := ix.Index.(*ast.Ident); ok && id.Name == idx.Name {
+								okOrder = true
+							}
+						}
+						return true
+					})
+				}
+				return true
+			})
+		}
+		ctx.Check(okOrder, "C08.R4", l.pkg+"."+helperName+" › variables substituted in declaration order", hpos, "range over scope.Prefix.Variables", "prefix variables are not taken in declaration order")
 	}
 }
